@@ -181,6 +181,20 @@ def size_boundary(tier, rng, k, n):
                 yield ("build-bigvalue", ("N,33,0", ["L=1", form % fill(ln, 0x55)]), {})
 
 
+def long_batches(tier, rng, k, n):
+    """batches of more items than the buffer can hold bytes: most items encode to nothing (empty slices, empty sections), a few
+    do not; the same items one call at a time; repeated empty batches.  Counts, not sizes, are what varies here."""
+    if k != 0:
+        return
+    for ctor in ("N,33,17", "W,33,1,4,01020304,05060708,258,772"):
+        for count in (65551, 65552, 65553, 65600, 70000, 131073):
+            yield ("build-long-batch", (ctor, ["B=%d*b:-|b:010203" % count]), {})
+            yield ("build-long-batch", (ctor, ["B=%d*s:-|u8:7|%d*b:-|u16:258" % (count // 2, count - count // 2)]), {})
+        yield ("build-long-batch", (ctor, ["B=40000*b:-|u8:1|30000*b:-|u8:2", "L=-"]), {})
+        yield ("build-long-batch", (ctor, ["B=3000*u8:9|70000*b:-|u8:1"]), {})      # (the list model appends in O(n): many non-empty items would be quadratic)
+        yield ("build-long-batch", (ctor, ["B=300*t:4:-|u8:1"]), {})
+
+
 def parse_round_trip(tier, rng, k, n):
     """valid-command builds with TLV lists (C07): every type byte, value lengths 0..65535, totals of exactly 65 535"""
     rng = rng.fork("c07-%d" % k)
@@ -215,6 +229,22 @@ def parse_round_trip(tier, rng, k, n):
                 ops.append("TT=%d:%s" % (t, v))
         if exact and budget >= 3:
             ops.append("T=%d:%s" % (rng.below(256), fill(budget - 3, rng.below(256))))
+        if rng.chance(1, 3) and ops:
+            # the same TLVs handed over as batches (TLV structs and (type, bytes) pairs are the batchable forms); the harness
+            # passes a batch as a Vec, as a filtering iterator or as a from_fn iterator, by position
+            items = []
+            for o in ops:
+                k, arg = o.split("=", 1)
+                if k == "P":
+                    items.append(arg)
+                elif k == "T":
+                    items.append("t:" + arg)
+                else:
+                    items = None
+                    break
+            if items:
+                cut = rng.below(len(items) + 1)
+                ops = [("B=" + "|".join(part)) for part in (items[:cut], items[cut:]) if part] + (["B=-"] if rng.chance(1, 4) else [])
         yield ("build-wire", (c, ops), {"fam": fam})
 
 
@@ -235,6 +265,13 @@ def writer_cases(tier, rng, k, n):
             pre = fill(rng.choice([16, 1000, 60000, 65000]), rng.below(256))
         else:
             pre = fill(65530 + rng.below(31), rng.below(256))     # the band around the limit
+        if rng.chance(1, 8) and pick < 16:
+            # earlier writes into the same writer, among them refused ones (a value too large for its 16-bit length):
+            # a writer must not remember anything but its bytes
+            hist = [rng.choice(["b:" + fill(rng.choice([65536, 65537, 70000]), 1), "t:7:" + fill(65536, 2), "q:7:" + fill(65536, 2),
+                                rand_payload(rng, False), rand_payload(rng, False)]) for _ in range(1 + rng.below(2))]
+            yield ("write-history", (pre, p, ";".join(hist)), {})
+            continue
         yield ("write", (pre, p), {})
     if k == 0:
         for kind, bits, signed in INT_KINDS:
